@@ -34,9 +34,31 @@ def run(ctx, res):
         B = f.block_of(n)
         return B is not None and B.id in CFG.reachable_from(f, B.id, ()) and any(
             B.id in CFG.reachable_from(f, s, ()) for s in CFG.succs(f, B.id))
-    sites.sort(key=lambda fn: (not in_loop(fn), fn[0].name))
+    def generic(fn):
+        # the retrying writer takes what it writes from its own parameters (descriptor, buffer, size)
+        f, n = fn
+        a = call_args(n)
+        if len(f.params) < 3 or len(a) != 3:
+            return False
+        from_param = set()
+        for m in walk(f.body):
+            if m["k"] == "DeclStmt":
+                for d in m["decls"]:
+                    b = base_decl(d["init"]) if d.get("init") is not None else None
+                    if b and b[0] == "param":
+                        from_param.add(d["name"])
+        for x in a:
+            b = base_decl(x)
+            if not b or not (b[0] == "param" or (b[0] == "local" and b[2] in from_param)):
+                return False
+        return True
+    sites.sort(key=lambda fn: (not generic(fn), not in_loop(fn), fn[0].name))
     first = sites[0]
     if len(first[0].params) < 3:
+        if len(sites) > 1 and not any(generic(x) for x in sites):
+            for f, n in sites:
+                res.bad("C20.R1", site(f, "write"), "write(2) is called from %d functions and none of them is a (descriptor, buffer, size) retry loop" % len(sites), f.loc(n))
+            return
         raise BrokenAnalysis("the function calling write(2) has no (fd, buffer, size) parameters")
     for f, n in sites[1:]:
         res.bad("C20.R1", site(f, "write"), "second call site of write(2): table bytes are written outside the "
